@@ -14,23 +14,23 @@ import (
 
 // Outcome is the normalised observable result of one transaction (§2.4).
 type Outcome struct {
-	Steps       []string         `json:"steps"` // one line per API call with its return value
-	Interrupted *itRec           `json:"interrupted"`
-	Fired       []int            `json:"fired"` // rule ids in firing order (dump rule excluded)
-	Data        map[int][]string `json:"data"`  // rule id -> sorted multiset of VAR:key=value
-	Msgs        map[int]string   `json:"msgs,omitempty"`
+	Steps       []string          `json:"steps"` // one line per API call with its return value
+	Interrupted *itRec            `json:"interrupted"`
+	Fired       []int             `json:"fired"` // rule ids in firing order (dump rule excluded)
+	Data        map[int][]string  `json:"data"`  // rule id -> sorted multiset of VAR:key=value
+	Msgs        map[int]string    `json:"msgs,omitempty"`
 	TX          map[string]string `json:"tx,omitempty"`
-	ReqBody     string           `json:"req_body"`
-	RespBody    string           `json:"resp_body"`
-	CloseErr    string           `json:"close_err,omitempty"`
-	Panic       string           `json:"panic,omitempty"`
-	PanicStep   string           `json:"panic_step,omitempty"`
-	ErrCB       []int            `json:"err_cb,omitempty"`
-	Audit       []string         `json:"audit,omitempty"`
-	HeldReader  string           `json:"held_reader,omitempty"`
-	ErrSteps    []string         `json:"err_steps,omitempty"` // steps that returned a non-nil error
-	DebugErrors int              `json:"debug_errors"`
-	Excl        string           `json:"exclusivity,omitempty"`
+	ReqBody     string            `json:"req_body"`
+	RespBody    string            `json:"resp_body"`
+	CloseErr    string            `json:"close_err,omitempty"`
+	Panic       string            `json:"panic,omitempty"`
+	PanicStep   string            `json:"panic_step,omitempty"`
+	ErrCB       []int             `json:"err_cb,omitempty"`
+	Audit       []string          `json:"audit,omitempty"`
+	HeldReader  string            `json:"held_reader,omitempty"`
+	ErrSteps    []string          `json:"err_steps,omitempty"` // steps that returned a non-nil error
+	DebugErrors int               `json:"debug_errors"`
+	Excl        string            `json:"exclusivity,omitempty"`
 }
 
 func ifacePtr(x any) unsafe.Pointer { return (*[2]unsafe.Pointer)(unsafe.Pointer(&x))[1] }
